@@ -16,7 +16,7 @@ def Inv (s : St) : Prop :=
 
 theorem Inv_init : Inv {} := by intro h; cases h
 
-theorem Inv_step (s : St) (h : Inv s) (m : Move) : Inv (step false s m) := by
+theorem Inv_step (d : Bool) (s : St) (h : Inv s) (m : Move) : Inv (step false d s m) := by
   cases m with
   | owner =>
     simp only [step, Bool.false_eq_true, if_false]
@@ -39,42 +39,55 @@ theorem Inv_step (s : St) (h : Inv s) (m : Move) : Inv (step false s m) := by
       · exact h
     | checked =>
       simp only
-      intro _ _
-      exact Or.inr ⟨c, by simp [St.set]⟩
+      split
+      · intro ha ht
+        rcases h ha ht with h1 | ⟨c', h2⟩
+        · exact Or.inl h1
+        · refine Or.inr ⟨c', ?_⟩
+          have : c' ≠ c := fun e => by rw [e, hc] at h2; cases h2
+          simp [St.set, this, h2]
+      · intro _ _
+        exact Or.inr ⟨c, by simp [St.set]⟩
     | stored =>
       simp only
       split
       · next ht => intro _ ht'; simp [St.set] at ht'; rw [ht] at ht'; cases ht'
       · intro ha; simp [St.set] at ha
 
-theorem Inv_run (ms : List Move) (s : St) (h : Inv s) : Inv (run false s ms) := by
+theorem Inv_run (d : Bool) (ms : List Move) (s : St) (h : Inv s) : Inv (run false d s ms) := by
   induction ms generalizing s with
   | nil => exact h
-  | cons m ms ih => exact ih _ (Inv_step s h m)
+  | cons m ms ih => exact ih _ (Inv_step d s h m)
 
-/-- **No action outlives its entity.** After any interleaving of the entity's removal (with the module clean-up that
-    follows it) and any number of action requests by any number of participants, whenever the owner's handler is done and
-    no setter is inside a request, an entity that is gone has no action in the module state - so no newcomer is handed
-    one. -/
-theorem C01_conc_action_never_outlives_entity (ms : List Move)
-    (hown : (run false {} ms).owner = 2) (hq : ∀ c, (run false {} ms).setter c = .idle)
-    (hgone : (run false {} ms).there = false) : (run false {} ms).action = false := by
-  have h := Inv_run ms {} Inv_init
-  cases ha : (run false {} ms).action with
+/-- the statement for either kind of attachment (`d`: the store refuses what is already there) -/
+theorem nothing_outlives_entity (d : Bool) (ms : List Move)
+    (hown : (run false d {} ms).owner = 2) (hq : ∀ c, (run false d {} ms).setter c = .idle)
+    (hgone : (run false d {} ms).there = false) : (run false d {} ms).action = false := by
+  have h := Inv_run d ms {} Inv_init
+  cases ha : (run false d {} ms).action with
   | false => rfl
   | true =>
     rcases h ha hgone with h1 | ⟨c, h2⟩
     · rw [hown] at h1; cases h1
     · rw [hq c] at h2; cases h2
 
+/-- **No action outlives its entity.** After any interleaving of the entity's removal (with the module clean-up that
+    follows it) and any number of action requests by any number of participants, whenever the owner's handler is done and
+    no setter is inside a request, an entity that is gone has no action in the module state - so no newcomer is handed
+    one. -/
+theorem C01_conc_action_never_outlives_entity (ms : List Move)
+    (hown : (run false false {} ms).owner = 2) (hq : ∀ c, (run false false {} ms).setter c = .idle)
+    (hgone : (run false false {} ms).there = false) : (run false false {} ms).action = false :=
+  nothing_outlives_entity false ms hown hq hgone
+
 /-- the premises are satisfiable: the owner leaves while a participant's action is in flight -/
-example : let s := run false {} [.setter 5, .owner, .setter 5, .owner, .setter 5]
+example : let s := run false false {} [.setter 5, .owner, .setter 5, .owner, .setter 5]
     s.owner = 2 ∧ s.setter 5 = .idle ∧ s.there = false ∧ s.action = false := by decide
 
 /-- **Before the repair (F21).** The module clean-up runs, a participant finds the entity and stores an action, the entity
     is removed: the action stays although everybody is done. -/
 theorem C01_old_order_keeps_a_stale_action :
-    let s := run true {} [.owner, .setter 5, .setter 5, .owner]
+    let s := run true false {} [.owner, .setter 5, .setter 5, .owner]
     s.owner = 2 ∧ s.setter 5 = .idle ∧ s.there = false ∧ s.action = true := by decide
 
 /-! ### a newcomer against an owner's departure (F23) -/
